@@ -46,6 +46,7 @@ static void remember(LHAFileHeader *h) { (void) h; }
 /* ---------- callback stream ---------- */
 static uint8_t *adata; static size_t alen, apos;
 static unsigned long src_calls, src_bytes, src_budget;
+static long err_after;          /* > 0: from the (err_after + 1)-th callback on, reading fails (-1) and skipping fails (0), for good */
 static void budget(void)
 {
 	if (src_budget && src_calls > src_budget) {
@@ -59,6 +60,7 @@ static int cb_read(void *h, void *buf, size_t n)
 	size_t k = alen - apos < n ? alen - apos : n;
 	(void) h;
 	src_calls++; src_bytes += n; budget();
+	if (err_after > 0 && (long) src_calls > err_after) return -1;
 	memcpy(buf, adata + apos, k); apos += k;
 	return (int) k;
 }
@@ -66,6 +68,7 @@ static int cb_skip(void *h, size_t n)
 {
 	(void) h;
 	src_calls++; budget();
+	if (err_after > 0 && (long) src_calls > err_after) return 0;
 	if (alen - apos < n) { apos = alen; return 0; }
 	apos += n;
 	return 1;
@@ -159,6 +162,8 @@ int main(int argc, char **argv)
 		if (strcmp(xdir, "-") && chdir(xdir) != 0) { perror(xdir); return 2; }
 		verif_alloc_reset(); verif_fail_at = failk; verif_alloc_log = f_alloc;
 		LHAInputStream *st = NULL; FILE *fh = NULL; int is_popen = 0;
+		/* stream kinds cbE<k> / cbnsE<k>: the source fails for good after k callbacks */
+		err_after = 0; { char *e = strchr(skind, 'E'); if (e) { err_after = atol(e + 1); *e = 0; } }
 		if (!strcmp(skind, "path")) LIB(st = lha_input_stream_from(arc));
 		else if (!strcmp(skind, "FILE")) { fh = fopen(arc, "rb"); LIB(st = lha_input_stream_from_FILE(fh)); }
 		else if (!strcmp(skind, "pipe")) { char cmd[4200]; snprintf(cmd, sizeof cmd, "cat '%s'", arc); fh = popen(cmd, "r"); is_popen = 1; LIB(st = lha_input_stream_from_FILE(fh)); }
